@@ -582,3 +582,30 @@ def d17_name_scan_complete(db, rep, pfuncs, rule="D17-NAME-SCAN-COMPLETE"):
     if n < 1:
         raise AnalysisBroken("the pairwise variable-name comparison was not found in orcparse.c")
     return n
+
+
+def d18_hex_prefix_needs_digit(db, rep, rule="D18-HEX-PREFIX-NEEDS-DIGIT"):
+    """D18: "bad numbers ... reported".  The parser's own _strtoll steps over a `0x` prefix; it may do so only where a hex digit
+    follows, otherwise `0x` alone converts to 0 with the whole token consumed and no error.  Every advance of the text cursor
+    by two in _strtoll must be control-dependent on a test of the character after the prefix (isxdigit / a range test on
+    index 2)."""
+    f = db.func("_strtoll", "orcutils")
+    rep.saw(f)
+    fc = Facts(f)
+    adv = [x for x in f.walk() if x.k == "CompoundAssignOperator" and x.op == "+=" and strip_casts(x.c[1]).v == 2]
+    if not adv:
+        raise AnalysisBroken("_strtoll: prefix skip (`nptr += 2`) not found")
+    for x in adv:
+        cur = access_path(x.c[0])
+        ok = False
+        for c_ in fc.conds(x):
+            if c_[0] == "switch":
+                continue
+            t = unparse(c_[0]).replace(" ", "")
+            if c_[1] and ("isxdigit" in t or "isdigit" in t) and ("%s+2" % cur in t or "%s[2]" % cur in t):
+                ok = True
+        rep.check(ok, rule, where(f), "prefix-skip@%s" % x.line,
+                  "the 0x prefix is stepped over only in front of a hex digit",
+                  "_strtoll steps over `0x` (line %s) without looking at the character after it: the token `0x` converts to 0 with everything consumed, "
+                  "so `.const 4 c 0x` is accepted without an error record" % x.line, line=x.line)
+
